@@ -20,6 +20,10 @@ fn conversions(v: &Value) -> Vec<&'static str> {
     t!(Date, "Date", Date); t!(Time, "Time", Time); t!(DateTime, "DateTime", DateTime); t!(Coord, "Coord", Coord); t!(XStr, "XStr", XStr);
     t!(Dict, "Dict", Dict); t!(Grid, "Grid", Grid);
     if let Ok(x) = List::try_from(v) { out.push("Vec"); if Value::List(x) != *v { out.push("Vec-payload-differs"); } }
+    // conversions to primitives
+    if let Ok(x) = bool::try_from(v) { out.push("bool"); if Value::make_bool(x) != *v { out.push("bool-payload-differs"); } }
+    if let Ok(x) = f64::try_from(v) { out.push("f64"); match v { Value::Number(n) if n.value.to_bits() == x.to_bits() || (n.value == x) => {}, _ => out.push("f64-payload-differs") } }
+    if let Ok(x) = String::try_from(v) { out.push("String"); if Value::make_str(&x) != *v { out.push("String-payload-differs"); } }
     if Marker::try_from(v).is_ok() { out.push("Marker"); }
     if Na::try_from(v).is_ok() { out.push("Na"); }
     if Remove::try_from(v).is_ok() { out.push("Remove"); }
